@@ -146,6 +146,21 @@ CHECKS["C08"] = (
     "finalize must equal the batch d, v, a; get_f2x columns must equal the change produced by unit add-ons.",
     "The batch solvers themselves are decided by C01/C17; interspersed partitions and pre_eig are documented "
     "limitations of the generator interface and are not generated.", "3/C08")
+CHECKS["C17"] = (
+    "Hypothesis-generated systems (diagonal/full, singular mass, rf, nonlinear terms, any step size); oracle = "
+    "literal dense transcription of the documented Newmark recurrence and of the documented CDF equations "
+    "(per-mode coefficients from 40-digit exact one-mode maps); convergence ladders against an exact "
+    "solution; boundedness; bit-identity with SolveUnc for diagonal damping",
+    "Generated-input search: SolveNewmark histories (d, v, a and the z outputs of nonlinear terms) must equal "
+    "an independent transcription of the documented three-point recurrence with its start-up and extrapolated "
+    "last step, for diagonal and full matrices, massless DOF, rf partitions and steps from 1e-4 to 3; "
+    "SolveCDF / cd_as_force must equal a dense per-step solution of the documented equations (1)-(2); on "
+    "h, h/2, h/4, h/8 ladders the error against the exact solution of sinusoidally forced systems must "
+    "shrink with observed order >= 0.9 (Newmark, inconsistent start), >= 1.8 (consistent start, CDF); free "
+    "decay of damped systems must stay within the energy bound for any step; with diagonal damping SolveCDF "
+    "must be bit-identical to SolveUnc.",
+    "Explicit nonlinear terms that diverge in the reference itself are out of domain; convergence orders are "
+    "asserted with a margin below the theoretical 1 and 2.", "3/C17")
 
 NOT_APPLICABLE = {
 }
